@@ -75,6 +75,12 @@ Verdict(tr) ==
               ELSE IF mo.why = "bp" /\ (mo.nd # ro.nd \/ mo.paused # ro.paused)
                  THEN <<"PROP:breakpoint_pause", d>>
               ELSE IF ~mo.clean /\ mo.nd < ro.nd /\ mo.why = "bp" THEN <<"PROP:breakpoint_pause", d>>
+              \* no pause request or pausing hook anywhere in the script and the run was not entered by
+              \* step(): the only thing that may pause it is a breakpoint, right after the first delivery
+              \* that satisfies it (Control.tla computes exactly that point)
+              ELSE IF (\A i \in 1..Len(tr.cmds) : tr.cmds[i].op \notin {"pause", "hook"}) /\ mo.by # "step"
+                      /\ (mo.nd # ro.nd \/ mo.paused # ro.paused)
+                 THEN <<"PROP:breakpoint_pause", d>>
               ELSE <<"MODEL:pause_point", d>>
          ELSE <<"MODEL:snapshot", d>>
 
